@@ -147,8 +147,8 @@ def exhaustive_small(tier):
     for cfg in cfgs:
         for req in reqs:
             segs = list(segmentations(req, maxcuts)) if len(req) > 14 else list(segmentations(req, 13 if tier != "quick" else 2))
-            if tier == "quick":
-                segs = segs[:: max(1, len(segs) // 12)]
+            cap_n = 12 if tier == "quick" else 36
+            segs = segs[:: max(1, len(segs) // cap_n)]
             for chunks in segs:
                 reads = [("read", [c]) for c in chunks]
                 first = outcomes_mw if cfg["has_mw"] else outcomes_h
